@@ -5,11 +5,20 @@ component at or beyond the end time, without a data / time error."""
 
 
 def gen_builtin(rng):
-    day0 = rng.choice([0, 14, 28, 29, 30, 59, 89, 364 + 29, 364 + 30])   # days after 2000-01-01
-    gen_step = rng.choice([["d", 1], ["d", 1], ["h", 12], ["d", 2]])
-    mid_step = rng.choice([["m", 1], ["m", 1], ["d", 30], ["d", 7], ["m", 2], ["y", 1]])
-    cons_step = rng.choice([["d", 1], ["d", 5], ["m", 1], ["d", 31]])
-    span = {"m": 31 * 3, "y": 366 + 40, "d": 40}[mid_step[0]] + rng.choice([0, 5, 11])
+    if rng.random() < 0.5:
+        # month-end starts from which "one month at a time" and "n months from the start" drift apart (Jan 30/31,
+        # Mar 31, Aug 31, Jan 29/30 of a non-leap year), monthly callback component, fine source on the day grid
+        day0 = rng.choice([29, 30, 90, 242, 364 + 29, 364 + 30, 364 + 31])
+        gen_step = rng.choice([["d", 1], ["d", 1], ["h", 12], ["h", 6]])
+        mid_step = ["m", 1]
+        cons_step = rng.choice([["d", 1], ["d", 5], ["m", 1], ["d", 31]])
+        span = 31 * rng.choice([3, 4, 5]) + rng.choice([0, 5, 11])
+    else:
+        day0 = rng.choice([0, 14, 28, 29, 30, 59, 89, 364 + 29, 364 + 30])   # days after 2000-01-01
+        gen_step = rng.choice([["d", 1], ["d", 1], ["h", 12], ["d", 2]])
+        mid_step = rng.choice([["m", 1], ["m", 1], ["d", 30], ["d", 7], ["m", 2], ["y", 1]])
+        cons_step = rng.choice([["d", 1], ["d", 5], ["m", 1], ["d", 31]])
+        span = {"m": 31 * 3, "y": 366 + 40, "d": 40}[mid_step[0]] + rng.choice([0, 5, 11])
     order = rng.sample([0, 1, 2], 3)
     return {"builtin": {"day0": day0, "gen": gen_step, "mid": mid_step, "cons": cons_step, "end_days": span,
                         "order": order, "mid_initial_pull": rng.random() < 0.5, "trigger": rng.random() < 0.3}}
